@@ -25,6 +25,7 @@ func init() {
 			ruleC04R8(r)
 			ruleC04R9(r)
 			ruleC04R11(r)
+			ruleC04R13(r)
 			ruleCheckThenActAtomic(r, "R12", "/iscp", "/wire")
 			ruleOptionSetters(r, "R10", "downstream_options.go")
 			r.borrow("C03", func() { ruleC03R2(r) }) // one alias generator for pre-registered and new aliases
@@ -368,7 +369,7 @@ func ruleC04R4(r *Run) {
 					if !isIf {
 						continue
 					}
-					if !reachesWithoutBlock(ifs.Block().Succs[0], c.Block()) {
+					if !reachesWithoutBlock(ifs.Block().Succs[0], c.Block()) || !edgeReaches(ifs.Block(), ifs.Block().Succs[0], c) {
 						ok = true
 						detail = "== on values of type " + typeStr(bo.X.Type()) + " over the existing table; the equal edge cannot reach Next"
 						for _, l := range append(xl, yl...) {
@@ -745,9 +746,141 @@ func ruleC04R11(r *Run) {
 				where = posOf(p, leak.Instrs[len(leak.Instrs)-1])
 			}
 			r.Check(name+" loop looks at every identifier", leak == nil && header != nil, where, name, "the loop in which aliases are minted is left from inside its body: the identifiers after the first known one get no alias and are never announced")
+			// and the loop is reached on every path: no return in front of it (an "already known" exit of another pass
+			// of a merged function must not skip this one)
+			if header != nil {
+				byp := reachesFromEntryWithout(fn, func(x ssa.Instruction) bool { return isReturn(x) && x.Block() != fn.Recover }, func(x ssa.Instruction) bool { return x.Block() == header })
+				w2 := posOf(p, c)
+				if byp != nil {
+					w2 = posOf(p, byp)
+				}
+				r.Check(name+" loop is reached on every path", byp == nil, w2, name, "a return is reachable from the entry without entering the loop in which this function mints aliases: the identifiers of that chunk get no alias and are never announced")
+			}
 		})
 	}
 	if n == 0 {
 		r.Check("alias minting loops", true, "", "", "no alias is minted inside a loop")
+	}
+}
+
+// ruleC04R13: an ack buffer is emptied only where its contents have just been packed into an ack, or on a stream that
+// nobody else can see yet. Results and alias announcements queued while the stream is detached (chunks are still
+// served from the queue during a resume) wait in the buffers for the first flush on the new connection; a "fresh
+// buffers for the next run" step in resume throws them away.
+func ruleC04R13(r *Run) {
+	r.Begin("R13", "who empties the ack buffers: every store of a fresh container into Downstream.upstreamInfoAckBuffer/dataIDAckBuffer/resultAckBuffer is made on a stream constructed in that function (not yet shared), or after the DownstreamChunkAck literal that reads the buffers — judged at the call sites when the stores sit in a helper", 3)
+	p := r.P
+	ackT := r.named("/message", "DownstreamChunkAck")
+	isBuf := map[string]bool{}
+	for _, b := range ackBuffers {
+		isBuf[b] = true
+	}
+	// sites: direct stores of fresh containers
+	type site struct {
+		ins  ssa.Instruction
+		recv ssa.Value // the Downstream the store goes to, in the function's terms
+		fk   string
+	}
+	var sites []site
+	for _, fn := range p.Funcs {
+		if fnPkgPath(fn) != modPath+"/iscp" || fn.Blocks == nil {
+			continue
+		}
+		allInstrs(fn, func(ins ssa.Instruction) {
+			st, ok := ins.(*ssa.Store)
+			if !ok {
+				return
+			}
+			fa, isFA := st.Addr.(*ssa.FieldAddr)
+			if !isFA || !isBuf[fieldKeyOfAddr(st.Addr)] {
+				return
+			}
+			switch v := canonVal(st.Val).(type) {
+			case *ssa.MakeMap, *ssa.MakeSlice:
+			case *ssa.Slice:
+				_ = v
+			case *ssa.Const:
+			default:
+				return // an append or another derived value: not an emptying store
+			}
+			sites = append(sites, site{ins, fa.X, fieldKeyOfAddr(st.Addr)})
+		})
+	}
+	packsBefore := func(at ssa.Instruction) bool {
+		if ackT == nil {
+			return false
+		}
+		for _, lit := range literalsOf(at.Parent(), ackT) {
+			reads := 0
+			for _, v := range lit.Fields {
+				for _, l := range p.Leaves(v, provOpts{}) {
+					if strings.HasPrefix(l, "field:") && isBuf[strings.TrimPrefix(l, "field:")] {
+						reads++
+					}
+				}
+			}
+			// packed: the ack literal of this function reads all three buffers (before the store, or from temporaries that
+			// were loaded before it — the order of literal and store does not matter as long as both are on the path)
+			if reads >= 3 {
+				return true
+			}
+		}
+		return false
+	}
+	var judge func(at ssa.Instruction, recv ssa.Value, depth int) (bool, string)
+	judge = func(at ssa.Instruction, recv ssa.Value, depth int) (bool, string) {
+		fn := at.Parent()
+		if pt := pathOf(recv); isLocalObject(pt) {
+			// constructed here, and this is the constructing function itself (a closure or goroutine of it sees a
+			// stream that is already shared), before any goroutine was started
+			if a, isA := pt.Root.(*ssa.Alloc); isA && a.Parent() == fn {
+				shared := false
+				allInstrs(fn, func(x ssa.Instruction) {
+					if g, isGo := x.(*ssa.Go); isGo && dominatesInstr(g, at) {
+						shared = true
+					}
+				})
+				if !shared {
+					return true, "on a stream constructed in " + fnName(fn)
+				}
+			}
+		}
+		if packsBefore(at) {
+			return true, "after the ack was packed in " + fnName(fn)
+		}
+		// the stream is a parameter (the receiver) of a helper: judged at the helper's call sites
+		prm, isP := canonVal(recv).(*ssa.Parameter)
+		if !isP || depth >= 3 {
+			return false, "in " + fnName(fn) + " on a shared stream, without packing the buffers first"
+		}
+		top := prm.Parent()
+		idx := -1
+		for i, q := range top.Params {
+			if q == prm {
+				idx = i
+			}
+		}
+		callSites := p.staticCallSites(top)
+		if idx < 0 || len(callSites) == 0 || (top.Object() != nil && top.Object().Exported()) {
+			return false, "in " + fnName(fn) + " on a shared stream, without packing the buffers first"
+		}
+		for _, cs := range callSites {
+			cc := instrCall(cs)
+			if cc == nil || idx >= len(cc.Args) {
+				return false, "at an unusual call of " + fnName(top)
+			}
+			if ok, why := judge(cs, cc.Args[idx], depth+1); !ok {
+				return false, "through " + fnName(top) + ", " + why
+			}
+		}
+		return true, "at every call of " + fnName(top)
+	}
+	per := map[string]int{}
+	for _, s := range sites {
+		name := fnName(s.ins.Parent())
+		per[name+s.fk]++
+		ok, why := judge(s.ins, s.recv, 0)
+		short := s.fk[strings.LastIndexByte(s.fk, '.')+1:]
+		r.Check(fmt.Sprintf("%s empties %s#%d only after packing or before sharing", name, short, per[name+s.fk]), ok, posOf(p, s.ins), name, "the buffer is replaced by an empty one "+why)
 	}
 }
